@@ -60,25 +60,23 @@ Qed.
 Lemma dec_u16_roundtrip : forall z rest, u16 z -> dec_u16 (pc_u16 z ++ rest) = Some (z, rest).
 Proof.
   intros z rest Hz. unfold u16 in Hz. unfold dec_u16, pc_u16.
-  rewrite varint_go_roundtrip; [| lia | change (128 ^ Z.of_nat 3) with 2097152; lia].
+  unfold varint_dec. change (max_of_last_byte 3) with 3.
+  rewrite varint_lim_roundtrip; [| lia | lia | change (128 ^ (Z.of_nat 3 - 1) * (3 + 1)) with 65536; lia].
   destruct (Z.ltb_spec z 65536); [reflexivity | lia].
 Qed.
-
-Lemma varint_dec_S : forall f b r,
-  varint_dec (S f) (b :: r) =
-  if b <? 128 then Some (b, r)
-  else match varint_dec f r with Some (hi, r') => Some ((b - 128) + 128 * hi, r') | None => None end.
-Proof. reflexivity. Qed.
 
 (* a decoded u16 is in range when the input consists of bytes *)
 Lemma varint_dec_nonneg : forall fuel bs n r,
   Forall byte bs -> varint_dec fuel bs = Some (n, r) -> 0 <= n /\ Forall byte r.
 Proof.
+  intros fuel. unfold varint_dec. generalize (max_of_last_byte fuel) as m. intros m.
   induction fuel as [|f IH]; intros bs n r Hb E; [discriminate|].
   destruct bs as [|b bs]; [discriminate|]. inversion Hb as [|b0 l0 Hb0 Hbs]; subst.
-  rewrite varint_dec_S in E. unfold byte in Hb0. destruct (Z.ltb_spec b 128) as [Hlt|Hge].
-  - injection E as <- <-. split; [lia | exact Hbs].
-  - destruct (varint_dec f bs) as [[hi r']|] eqn:E'; [|discriminate].
+  rewrite varint_dec_lim_S in E. unfold byte in Hb0. destruct (Z.ltb_spec b 128) as [Hlt|Hge].
+  - assert (E' : b = n /\ bs = r).
+    { destruct f; [destruct (b <=? m); [|discriminate]|]; injection E as E1 E2; split; assumption. }
+    destruct E' as [<- <-]. split; [lia | exact Hbs].
+  - destruct (varint_dec_lim m f bs) as [[hi r']|] eqn:E'; [|discriminate].
     injection E as E1 E2. change (b - 128 + 128 * hi = n) in E1. rewrite E2 in E'.
     destruct (IH bs hi r Hbs E') as [Hhi Hr]. split; [lia | exact Hr].
 Qed.
@@ -138,6 +136,76 @@ Proof.
   rewrite flat_map_singleton. reflexivity.
 Qed.
 
+(* ---------- every decoder takes a non-empty prefix of its input ---------- *)
+
+Lemma dec_u16_consumes : consumes dec_u16.
+Proof.
+  intros bs x r E. unfold dec_u16 in E. destruct (varint_dec 3 bs) as [[n r']|] eqn:E'; [|discriminate].
+  destruct (n <? 65536); [|discriminate]. injection E as _ E. subst r'. exact (varint_dec_consumes 3 bs n r E').
+Qed.
+
+Lemma dec_hash_consumes : forall n, consumes (dec_hash n).
+Proof.
+  intros n bs x r E. unfold dec_hash in E. destruct (dec_bytes bs) as [[a r']|] eqn:E'; [|discriminate].
+  destruct (Nat.eqb (length a) n); [|discriminate]. injection E as _ E. subst r'.
+  exact (dec_bytes_consumes bs a r E').
+Qed.
+
+Lemma dec_content_address_consumes : consumes dec_content_address.
+Proof. exact (dec_hash_consumes 32). Qed.
+
+Lemma dec_predicate_address_consumes : consumes dec_predicate_address.
+Proof.
+  intros bs x r E. unfold dec_predicate_address in E.
+  destruct (dec_content_address bs) as [[c r1]|] eqn:E1; [|discriminate].
+  destruct (dec_content_address r1) as [[p r2]|] eqn:E2; [|discriminate]. injection E as _ E. subst r2.
+  exact (took_trans _ _ _ (dec_content_address_consumes _ _ _ E1) (dec_content_address_consumes _ _ _ E2)).
+Qed.
+
+Lemma dec_solution_set_consumes : consumes dec_solution_set.
+Proof. exact (dec_seq_consumes dec_solution dec_solution_consumes). Qed.
+
+Lemma dec_node_consumes : consumes dec_node.
+Proof.
+  intros bs x r E. unfold dec_node in E.
+  destruct (dec_u16 bs) as [[e r1]|] eqn:E1; [|discriminate].
+  destruct (dec_content_address r1) as [[a r2]|] eqn:E2; [|discriminate]. injection E as _ E. subst r2.
+  exact (took_trans _ _ _ (dec_u16_consumes _ _ _ E1) (dec_content_address_consumes _ _ _ E2)).
+Qed.
+
+Lemma dec_predicate_consumes : consumes dec_predicate.
+Proof.
+  intros bs x r E. unfold dec_predicate in E.
+  destruct (dec_seq dec_node bs) as [[ns r1]|] eqn:E1; [|discriminate].
+  destruct (dec_seq dec_u16 r1) as [[es r2]|] eqn:E2; [|discriminate]. injection E as _ E. subst r2.
+  exact (took_trans _ _ _ (dec_seq_consumes _ dec_node_consumes _ _ _ E1) (dec_seq_consumes _ dec_u16_consumes _ _ _ E2)).
+Qed.
+
+Lemma dec_program_consumes : consumes dec_program.
+Proof. exact dec_bytes_consumes. Qed.
+
+Lemma dec_contract_consumes : consumes dec_contract.
+Proof.
+  intros bs x r E. unfold dec_contract in E.
+  destruct (dec_seq dec_predicate bs) as [[ps r1]|] eqn:E1; [|discriminate].
+  destruct (dec_hash 32 r1) as [[s r2]|] eqn:E2; [|discriminate]. injection E as _ E. subst r2.
+  exact (took_trans _ _ _ (dec_seq_consumes _ dec_predicate_consumes _ _ _ E1) (dec_hash_consumes 32 _ _ _ E2)).
+Qed.
+
+Lemma dec_signature_consumes : consumes dec_signature.
+Proof.
+  intros bs x r E. unfold dec_signature in E. destruct (dec_hash 65 bs) as [[b r']|] eqn:E'; [|discriminate].
+  injection E as _ E. subst r'. exact (dec_hash_consumes 65 bs b r E').
+Qed.
+
+Lemma dec_signed_contract_consumes : consumes dec_signed_contract.
+Proof.
+  intros bs x r E. unfold dec_signed_contract in E.
+  destruct (dec_contract bs) as [[c r1]|] eqn:E1; [|discriminate].
+  destruct (dec_signature r1) as [[sg r2]|] eqn:E2; [|discriminate]. injection E as _ E. subst r2.
+  exact (took_trans _ _ _ (dec_contract_consumes _ _ _ E1) (dec_signature_consumes _ _ _ E2)).
+Qed.
+
 (* ---------- round trips ---------- *)
 
 Lemma dec_predicate_address_roundtrip : forall pa rest,
@@ -151,7 +219,7 @@ Lemma dec_solution_set_roundtrip : forall ss rest,
   pwf_solution_set ss -> dec_solution_set (pc_solution_set ss ++ rest) = Some (ss, rest).
 Proof.
   intros ss rest [Hf Hl]. unfold dec_solution_set, pc_solution_set.
-  apply (dec_seq_roundtrip pc_solution dec_solution wf_solution dec_solution_roundtrip ss rest Hf Hl).
+  apply (dec_seq_roundtrip pc_solution dec_solution wf_solution dec_solution_consumes dec_solution_roundtrip ss rest Hf Hl).
 Qed.
 
 Lemma wf_node_address : forall n, wf_node n -> wf_address (n_program n).
@@ -169,8 +237,8 @@ Lemma dec_predicate_roundtrip : forall p rest,
 Proof.
   intros [ns es] rest ([Hn He] & Hnl & Hel). cbn [p_nodes p_edges] in *.
   unfold dec_predicate, pc_predicate. cbn [p_nodes p_edges]. rewrite <- app_assoc.
-  rewrite (dec_seq_roundtrip pc_node dec_node wf_node dec_node_roundtrip ns _ Hn Hnl).
-  rewrite (dec_seq_roundtrip pc_u16 dec_u16 u16 dec_u16_roundtrip es _ He Hel). reflexivity.
+  rewrite (dec_seq_roundtrip pc_node dec_node wf_node dec_node_consumes dec_node_roundtrip ns _ Hn Hnl).
+  rewrite (dec_seq_roundtrip pc_u16 dec_u16 u16 dec_u16_consumes dec_u16_roundtrip es _ He Hel). reflexivity.
 Qed.
 
 Lemma dec_program_roundtrip : forall bs rest,
@@ -182,7 +250,7 @@ Lemma dec_contract_roundtrip : forall c rest,
 Proof.
   intros [ps s] rest (Hp & Hl & Hs). cbn [c_predicates c_salt] in *.
   unfold dec_contract, pc_contract. cbn [c_predicates c_salt]. rewrite <- app_assoc.
-  rewrite (dec_seq_roundtrip pc_predicate dec_predicate pwf_predicate dec_predicate_roundtrip ps _ Hp Hl).
+  rewrite (dec_seq_roundtrip pc_predicate dec_predicate pwf_predicate dec_predicate_consumes dec_predicate_roundtrip ps _ Hp Hl).
   rewrite (dec_hash_roundtrip 32 s rest (proj1 Hs) (wf_address_len s Hs)). reflexivity.
 Qed.
 
@@ -326,6 +394,7 @@ Lemma dec_seq_sound {A} (d : list Z -> option (A * list Z)) (P : A -> Prop) :
 Proof.
   intros Hd bs xs r Hb E. unfold dec_seq in E. destruct (varint_dec 10 bs) as [[n r1]|] eqn:E1; [|discriminate].
   destruct (varint_dec_nonneg 10 bs n r1 Hb E1) as [_ Hr1].
+  apply dec_cnt_some in E.
   destruct (dec_n_sound d P Hd (Z.to_nat n) r1 xs r Hr1 E) as (Pxs & Hr & _). split; assumption.
 Qed.
 
@@ -398,6 +467,76 @@ Proof.
   split; [|exact Hr]. split; cbn [sc_contract sc_signature]; [exact Hc | exact (sig_of_bytes_wf b L F)].
 Qed.
 
+(* ---------- fidelity of the varint and sequence readers ---------- *)
+
+(* try_take_varint_u64: whatever is accepted is a u64, read from 1 to 10 bytes *)
+Lemma varint_u64_canonical_range : forall bs n r,
+  Forall byte bs -> varint_dec 10 bs = Some (n, r) ->
+  0 <= n < 2 ^ 64 /\ exists pre, bs = pre ++ r /\ (1 <= length pre <= 10)%nat.
+Proof.
+  intros bs n r Hb E. unfold varint_dec in E. change (max_of_last_byte 10) with 1 in E. split.
+  - pose proof (varint_lim_range 1 10 bs n r ltac:(lia) Hb E) as H.
+    change (128 ^ (Z.of_nat 10 - 1) * (1 + 1)) with 18446744073709551616 in H.
+    change (2 ^ 64) with 18446744073709551616. exact H.
+  - exact (varint_lim_prefix 1 10 bs n r E).
+Qed.
+
+(* try_take_varint_u16 = `varint_dec 3` (third byte at most 3, no continuation); on bytes the value check of
+   dec_u16 says the same thing *)
+Lemma dec_u16_is_varint_dec : forall bs, Forall byte bs -> dec_u16 bs = varint_dec 3 bs.
+Proof.
+  intros bs Hb. unfold dec_u16. destruct (varint_dec 3 bs) as [[n r]|] eqn:E; [|reflexivity].
+  unfold varint_dec in E. change (max_of_last_byte 3) with 3 in E.
+  pose proof (varint_lim_range 3 3 bs n r ltac:(lia) Hb E) as H.
+  change (128 ^ (Z.of_nat 3 - 1) * (3 + 1)) with 65536 in H.
+  destruct (Z.ltb_spec n 65536); [reflexivity | lia].
+Qed.
+
+(* a count above the number of unread bytes is rejected *)
+Lemma dec_seq_short {A} (d : list Z -> option (A * list Z)) : forall bs n r,
+  varint_dec 10 bs = Some (n, r) -> zlen r < n -> dec_seq d bs = None.
+Proof. intros bs n r E L. unfold dec_seq. rewrite E. apply dec_cnt_short. exact L. Qed.
+
+(* a decoded sequence has fewer items than the input has bytes *)
+Lemma dec_n_length {A} (d : list Z -> option (A * list Z)) : consumes d ->
+  forall n bs xs r, dec_n d n bs = Some (xs, r) -> (length xs + length r <= length bs)%nat.
+Proof.
+  intros Hc. induction n as [|n IH]; intros bs xs r E; cbn [dec_n] in E.
+  - injection E as E1 E2. subst xs r. cbn [length]. lia.
+  - destruct (d bs) as [[x r1]|] eqn:E1; [|discriminate].
+    destruct (dec_n d n r1) as [[xs' r2]|] eqn:E2; [|discriminate]. injection E as E3 E4. subst xs r2.
+    apply Hc in E1. apply took_length in E1. specialize (IH r1 xs' r E2). cbn [length]. lia.
+Qed.
+
+Lemma dec_seq_length {A} (d : list Z -> option (A * list Z)) : consumes d ->
+  forall bs xs r, dec_seq d bs = Some (xs, r) -> (length xs + length r < length bs)%nat.
+Proof.
+  intros Hc bs xs r E. unfold dec_seq in E. destruct (varint_dec 10 bs) as [[n r1]|] eqn:E1; [|discriminate].
+  apply dec_cnt_some in E. apply (dec_n_length d Hc) in E.
+  apply varint_dec_consumes in E1. apply took_length in E1. lia.
+Qed.
+
+(* for all sequences of these types the fuelled reader is the plain one *)
+Lemma dec_seq_eq_naive_all :
+  (forall bs, dec_words bs = dec_seq_naive dec_i64 bs) /\
+  (forall bs, dec_bytes bs = dec_seq_naive dec_u8 bs) /\
+  (forall bs, dec_seq dec_words bs = dec_seq_naive dec_words bs) /\
+  (forall bs, dec_seq dec_mutation bs = dec_seq_naive dec_mutation bs) /\
+  (forall bs, dec_solution_set bs = dec_seq_naive dec_solution bs) /\
+  (forall bs, dec_seq dec_node bs = dec_seq_naive dec_node bs) /\
+  (forall bs, dec_seq dec_u16 bs = dec_seq_naive dec_u16 bs) /\
+  (forall bs, dec_seq dec_predicate bs = dec_seq_naive dec_predicate bs).
+Proof.
+  split; [exact (dec_seq_eq_naive _ dec_i64_consumes)|].
+  split; [exact (dec_seq_eq_naive _ dec_u8_consumes)|].
+  split; [exact (dec_seq_eq_naive _ dec_words_consumes)|].
+  split; [exact (dec_seq_eq_naive _ dec_mutation_consumes)|].
+  split; [exact (dec_seq_eq_naive _ dec_solution_consumes)|].
+  split; [exact (dec_seq_eq_naive _ dec_node_consumes)|].
+  split; [exact (dec_seq_eq_naive _ dec_u16_consumes)|].
+  exact (dec_seq_eq_naive _ dec_predicate_consumes).
+Qed.
+
 (* ---------- examples (the values of Proofs/HexSerdeProofs.v) ---------- *)
 
 Lemma ex_signed_contract_pwf : pwf_signed_contract ex_signed_contract.
@@ -413,4 +552,21 @@ Proof.
   split; [exact ex_signed_contract_pwf|]. split.
   - unfold pwf_solution_set, wf_solution, wf_address, wf_mutation, wf_words, byte, i64. cbn. range_solve.
   - unfold pwf_program, byte. cbn. range_solve.
+Qed.
+
+(* the strict readers accept exactly what the plain ones accept with 32-byte addresses; in particular every well-formed value *)
+Lemma dec_solution_strict_roundtrip : forall s rest,
+  wf_solution s -> dec_solution_strict (pc_solution s ++ rest) = Some (s, rest).
+Proof.
+  intros s rest H. unfold dec_solution_strict. rewrite (dec_solution_roundtrip s rest H).
+  destruct H as [[Hc _] [[Hp _] _]]. rewrite Hc, Hp. reflexivity.
+Qed.
+Lemma dec_solution_strict_sound : forall bs s r,
+  dec_solution_strict bs = Some (s, r) ->
+  dec_solution bs = Some (s, r) /\ length (sol_contract s) = 32%nat /\ length (sol_predicate s) = 32%nat.
+Proof.
+  intros bs s r. unfold dec_solution_strict. destruct (dec_solution bs) as [[s' r']|] eqn:E; [|discriminate].
+  destruct (Nat.eqb (length (sol_contract s')) 32) eqn:E1; [|discriminate].
+  destruct (Nat.eqb (length (sol_predicate s')) 32) eqn:E2; [|discriminate].
+  cbn. intros H. inversion H; subst. apply Nat.eqb_eq in E1, E2. auto.
 Qed.
